@@ -1906,6 +1906,26 @@ func opCtorMapping(a []string) (string, []Fail) {
 				}
 			}
 		}
+		// history: a value is replaced through the pairs Values() hands out (they are the mapping's own); whatever
+		// still passes Validate must still serialise to bytes that parse back ("Validate success ⇒ clean round trip")
+		if vals := m.Values(); ok && len(vals) > 0 && len(vals) <= 1000 {
+			old, _ := vals[len(vals)-1][1].Data()
+			if longer, lerr := data.ToI2PString(old + "+edited"); lerr == nil && len(d)+7 <= 65535 {
+				vals[len(vals)-1][1] = longer
+				if m.Validate() == nil && m.Values().Validate() == nil {
+					d2 := m.Data()
+					back, rem, errs := data.ReadMapping(d2)
+					switch {
+					case len(d2) < 2 || int(d2[0])<<8|int(d2[1]) != len(d2)-2:
+						c.fail("C14", "roundtrip:Mapping:after-edit:size-field", "after a value was replaced through Values(), Validate passes but Data() announces %d bytes and carries %d", int(d2[0])<<8|int(d2[1]), len(d2)-2)
+					case len(errs) > 0 || len(rem) != 0:
+						c.fail("C14", "roundtrip:Mapping:after-edit:parse-error", "after a value was replaced through Values(), Validate passes but the bytes do not parse back (%d errors, %d bytes left)", len(errs), len(rem))
+					case !bytes.Equal(back.Data(), d2):
+						c.fail("C14", "roundtrip:Mapping:after-edit:differs", "after a value was replaced through Values(), the bytes parse back to a different mapping")
+					}
+				}
+			}
+		}
 	}
 	return c.line(), c.fails
 }
